@@ -47,7 +47,7 @@ enum Variant {
 const VARIANTS: [Variant; 3] = [Variant::Fwd, Variant::Rev, Variant::RevRev];
 
 #[derive(Serialize, Deserialize, Debug, Clone, Hash)]
-struct Case {
+pub struct Case {
     kind: Kind,
     variant: Variant,
     unit: bool,
@@ -287,7 +287,7 @@ fn zero_size_panics() -> Result<(), String> {
     Ok(())
 }
 
-fn run_case(c: &Case) -> Result<(), String> {
+pub fn run_case(c: &Case) -> Result<(), String> {
     if c.size == 0 {
         return zero_size_panics();
     }
@@ -374,7 +374,7 @@ fn explore(ctx: &mut Ctx) {
     });
 }
 
-fn fold_case(&(k, v, unit, len, size, hist): &(usize, usize, bool, usize, usize, u64)) -> Case {
+pub fn fold_case(&(k, v, unit, len, size, hist): &(usize, usize, bool, usize, usize, u64)) -> Case {
     let kind = KINDS[k];
     let size = if kind == Kind::ArrayChunks { (size - 1) % 5 + 1 } else { size };
     let steps = (item_count(kind, len, if matches!(kind, Kind::Iter | Kind::IterCopied) { 1 } else { size }) as u32 + 2).min(64);
